@@ -216,6 +216,16 @@ func c16mergeG(rng *rand.Rand, shared bool) string {
 				}
 			}
 		}
+		// an identity whose string does not occur in the other list has no pointer into it
+		inOther := false
+		for _, o := range all {
+			if o.list != all[i].list && str(o) == str(all[i]) {
+				inOther = true
+			}
+		}
+		if !inOther && (all[i].list == 1 && mi.Second != -1 || all[i].list == 2 && mi.First != -1) {
+			return fmt.Sprintf("%q occurs only in list %d but has pointers %+v (%v %v)", str(all[i]), all[i].list, mi, rd1, rd2)
+		}
 		for j := range all {
 			mj := idx[str(all[j])]
 			if (find(i) == find(j)) != (mi.Final == mj.Final) {
